@@ -2,7 +2,7 @@
 
 Monitor shape: generate a well-formed proto of one of the eight message kinds the public API
 accepts (``vfpy.gen_proto`` extended by ``vfpy.gen_proto_c02``: every feature toggled independently,
-IR versions 3..13; value names that repeat or spell out names of another scope - a function's value,
+IR versions 3..13; external-tensor locations in non-normalised spellings; value names that repeat or spell out names of another scope - a function's value,
 ``{domain}::{function}/{value}`` - and values described by more than one entry where one entry says
 less than the other - an ``output``/``input`` entry without a type for a value typed by its
 initializer or by a value_info entry), push it through the *real* deserializer and serializer by one of the public entry points
@@ -21,7 +21,8 @@ repository's ``testdata`` models - which the repository's own round-trip test pa
 the same comparator as a standing false-alarm audit of ``canon``.
 
 Signature = ``<message type owning the differing field>.<field>|<lost|added|duplicated|altered>``
-(``idempotence:`` prefix for the second trip, ``exception:<direction>|<type>@<raising function>``).
+(``TensorProto.external_data{location|offset|length}.value|...`` for an entry of a tensor's storage description;
+``idempotence:`` prefix for the second trip, ``exception:<direction>|<type>@<raising function>``).
 """
 
 from __future__ import annotations
@@ -30,6 +31,7 @@ import base64
 import glob
 import logging
 import os
+import re
 import shutil
 import tempfile
 from typing import Any, Callable
@@ -59,7 +61,10 @@ RULE = (
     "gen_proto_c02 adds (each toggled independently): main-graph/subgraph/later-function values named like a value "
     "of an earlier function, like '{domain}::{function}/{value}' of one or a near miss of that spelling (IR >= 10), "
     "untyped output entries of own initializers, value_info entries (type only) naming node-produced graph outputs "
-    "whose output entry may be untyped, untyped input entries of initializers that are inputs (IR >= 4)"
+    "whose output entry may be untyped, untyped input entries of initializers that are inputs (IR >= 4), "
+    "external-tensor locations spelled outside any normal form (leading './', doubled separator, '.' segment, inner "
+    "'sub/..' detour, upper/mixed case, blanks inside/around, composed vs decomposed non-ASCII, backslash, "
+    "percent-escape look-alikes, several directory levels; always relative and inside the model directory)"
 )
 ASSUMPTIONS = [
     "protobuf reflection (descriptors, HasField, ListFields semantics) and onnx's generated message classes are trusted",
@@ -77,6 +82,9 @@ ASSUMPTIONS = [
     "a value_info entry naming a declared graph output carries type and shape only (metadata of two entries for one "
     "value are merged by the one-Value-per-name IR; the statement is silent on which entry owns them) and is dropped "
     "by canon N4 on both sides: only the output entry is judged; a forwarded input is always re-declared verbatim",
+    "the location of an external tensor is an opaque string of the proto: every relative spelling that stays inside "
+    "the model directory is well-formed, whether or not a path library would rewrite it (no file is opened: external "
+    "tensors go through the in-memory entry points only)",
     "witnesses are shrunk by removing repeated elements / doc strings while the same signature persists; the "
     "unshrunk generated proto is kept in the replay file",
 ]
@@ -99,7 +107,8 @@ KEY_FEATURES = (
     # gen_proto_c02
     "alias_names:bare", "alias_names:convention", "alias_names:near_miss", "overlap_untyped_output",
     "overlap_output_value_info:untyped_output", "overlap_untyped_init_input",
-)
+    "location_spelling",
+) + tuple(f"location_spelling:{s}" for s in gx.LOCATION_STYLES)
 MAX_DIFFS_PER_TRIP = 8
 
 
@@ -296,12 +305,25 @@ def _compare(ca, cb, pa, pb, prefix: str, count) -> list[tuple[str, str]]:
     out = []
     seen = set()
     for d in diffs:
-        sig = prefix + d.signature()
+        sig = prefix + _signature(d)
         if sig in seen:
             continue
         seen.add(sig)
         out.append((sig, f"{d.path}: {cp.brief(d.a)}  ->  {cp.brief(d.b)}   [{d.kind}]"))
     return out
+
+
+_EXTERNAL_ENTRY = re.compile(r"external_data\{(location|offset|length)\}\.(\w+)$")
+
+
+def _signature(d) -> str:
+    """``Difference.signature()``, except that a differing entry of a tensor's ``external_data`` names the
+    storage field (the generic form would be ``StringStringEntryProto.value``: the same for every keyed
+    string map of the format)."""
+    m = _EXTERNAL_ENTRY.search(d.path)
+    if m:
+        return f"TensorProto.external_data{{{m.group(1)}}}.{m.group(2)}|{d.kind}"
+    return d.signature()
 
 
 def _innermost(exc: BaseException) -> BaseException:
